@@ -14,17 +14,21 @@ pub struct ChildSpec {
     pub script: Vec<Step>,
     pub omega: bool,
     pub wake_on_end: bool,
+    pub drop_panic: bool,
 }
 impl ChildSpec {
     pub fn fut(mode: Mode) -> Self {
-        ChildSpec { mode, fail: false, script: vec![], omega: false, wake_on_end: false }
+        ChildSpec { mode, fail: false, script: vec![], omega: false, wake_on_end: false, drop_panic: false }
     }
     pub fn failing(mode: Mode) -> Self {
-        ChildSpec { mode, fail: true, script: vec![], omega: false, wake_on_end: false }
+        ChildSpec { mode, fail: true, script: vec![], omega: false, wake_on_end: false, drop_panic: false }
     }
     pub fn stream(s: &str) -> Self {
         let omega = s == "w";
         // a trailing '!' = the stream wakes itself in the poll in which it returns None
+        // a trailing '~' = the stream's destructor panics when the crate drops it
+        let drop_panic = s.ends_with('~');
+        let s = s.trim_end_matches('~');
         let wake_on_end = s.ends_with('!');
         let s = s.trim_end_matches('!');
         let script = if omega {
@@ -32,7 +36,7 @@ impl ChildSpec {
         } else {
             s.chars().map(|c| if c == 'I' { Step::Item } else if c == 'J' { Step::ItemWake } else { Step::Pend }).collect()
         };
-        ChildSpec { mode: Mode::Stream, fail: false, script, omega, wake_on_end }
+        ChildSpec { mode: Mode::Stream, fail: false, script, omega, wake_on_end, drop_panic }
     }
     pub fn render(&self) -> String {
         if self.mode == Mode::Stream {
@@ -40,7 +44,7 @@ impl ChildSpec {
                 "Iω".into()
             } else {
                 let s: String = self.script.iter().map(|s| match s { Step::Item => 'I', Step::ItemWake => 'J', Step::Pend => 'P' }).collect();
-                format!("{}E{}", s, if self.wake_on_end { "!" } else { "" })
+                format!("{}E{}{}", s, if self.wake_on_end { "!" } else { "" }, if self.drop_panic { "~" } else { "" })
             }
         } else if self.fail {
             format!("{:?}!Err", self.mode)
@@ -408,6 +412,7 @@ impl<'a> Run<'a> {
             c.script = spec.script.clone();
             c.omega = spec.omega;
             c.wake_on_end = spec.wake_on_end;
+            c.drop_panic = spec.drop_panic;
             c.relay_target = tgt.unwrap_or(id);
             id
         })
@@ -1472,7 +1477,13 @@ fn drop_subject_from_waker() {
         let slot = unsafe { &mut *(p as *mut Option<Box<dyn Subject>>) };
         if let Some(s) = slot.take() {
             w(|w| w.call_id += 1);
-            in_crate(|| drop(s));
+            // a task waker must not panic: a child destructor that panics is caught right here
+            let r = std::panic::catch_unwind(std::panic::AssertUnwindSafe(|| in_crate(|| drop(s))));
+            if let Err(e) = r {
+                if e.downcast_ref::<ChildPanic>().is_none() {
+                    std::panic::resume_unwind(e);
+                }
+            }
             w(|w| w.subject_alive = false);
         }
     }
